@@ -34,6 +34,13 @@ CHECKS = {
                 'node-load computation',
                 text='held at every start request observed, except the listed known findings (load accounting across '
                      'applications started together)', ref='8/C04', note=TRUST_L3),
+    'C05': dict(engine=ENGINE_L3, technique='runtime monitoring: online oracle fed by a wrapper on conciliate_conflicts '
+                '(the conflict set the Master acts on), the stop / start requests at emission, the published states, '
+                'the true process tables and spawn instants, and the status API of the Master sampled once per tick',
+                text='held on every conciliation round, CONCILIATION entry / exit and tick sample observed: detection '
+                     'delay, Master only, managed only, stop set per strategy (survivor by true spawn instants), '
+                     'nothing else stopped, USER stops nothing, no conflict and OPERATION at the end', ref='8/C05',
+                note=TRUST_L3),
     'C07': dict(engine=ENGINE_L3, technique='runtime monitoring: online shadow counter per (observer, peer) fed by the '
                 'TICK deliveries and XML-RPC failures seen on the transport, evaluated around every periodic check '
                 '(hooks on the timer / tick / failure entry points and on every peer state change), plus an edge '
